@@ -8,6 +8,7 @@ import GB.C02.CloseOnce
 import GB.C02.Paths
 import GB.C02.WsStall
 import GB.C02.HttpEpilogue
+import GB.C02.Product
 /-
   C02 — every bridged call terminates promptly and releases its resources.
 
@@ -627,3 +628,104 @@ theorem C02_http_epilogue_repo (w : GB.HttpEp.WPc) (s : GB.HttpEp.State)
   rw [e] at hr
   have := C02_http_epilogue_terminates w s hr
   exact ⟨this.2.2.2.1, this.2.2.1⟩
+
+/-! ### Round 5 (g): Forward × adapter as ONE system (GB/C02/Product.lean)
+
+  The Forward LTS and the withCtx helper model of one stream operation `o` (Incoming.Recv / Incoming.Send /
+  Outgoing.Stream / outgoing.Send / outgoing.Recv), synchronised on the calls and returns of `o`, on the context
+  becoming done (external cancellation or the deferred cancel()), and on `close` (outgoing.Close() for the outgoing
+  operations, the return of Forward for the incoming ones); helper steps interleave freely. All statements are over
+  every reachable state of the product: all RPC kinds, peers, faults and interleavings of Forward's goroutines WITH the
+  helper goroutines. -/
+
+/-- The adapter never refuses a call Forward makes: whenever Forward can call `o`, no other call of `o` is in
+    progress (the `sendActive/recvActive` guard cannot fire) and the direction has not been abandoned. -/
+theorem C02_product_call_never_refused (p : Params) (q : GB.WCtx.Params) (hf : q.fresh = true) (o : Op)
+    (s : GB.Prod.PState M E) (hr : GB.Prod.PReachable p q o s) (l : Label M E) (f' : State M E)
+    (hs : step p s.1 l = some f') (hc : callOf l = some o) : (GB.WCtx.step q s.2 .call).isSome = true := by
+  obtain ⟨hS, _, hY⟩ := GB.Prod.pinv_reach p q hf o s hr
+  have hp := (pend_call p o s.1 f' l hS hs hc).2
+  have h1 : s.2.caller = none := by
+    have := hY.caller; rw [hp] at this
+    cases hcl : s.2.caller <;> simp_all
+  have h2 : s.2.stopped = false := by
+    cases hst : s.2.stopped with
+    | false => rfl
+    | true => exact absurd hc (dead_no_call p o s.1 f' l hS (hY.stopped hst) hs)
+  simp [GB.WCtx.step, h1, h2]
+
+/-- ctx-awareness of the adapter is a THEOREM of the helper model (it was the hypothesis `incAware/outAware` of
+    `C02_progress`): whenever a goroutine of Forward is inside `o` and the forwarding context is done, the adapter's
+    ctx.Done branch is enabled — the call returns without the peer. -/
+theorem C02_product_ctx_return_enabled (p : Params) (q : GB.WCtx.Params) (hf : q.fresh = true) (o : Op)
+    (s : GB.Prod.PState M E) (hr : GB.Prod.PReachable p q o s) (hp : pend o s.1 = true)
+    (hc : s.1.ctx.isSome = true) : (GB.WCtx.step q s.2 .takeCtx).isSome = true := by
+  obtain ⟨_, _, hY⟩ := GB.Prod.pinv_reach p q hf o s hr
+  have h1 := hY.caller; rw [hp] at h1
+  have h2 := hY.ctx; rw [hc] at h2
+  cases hcl : s.2.caller with
+  | none => simp [hcl] at h1
+  | some k => simp [GB.WCtx.step, hcl, h2]
+
+/-- After outgoing.Close() (outgoing operations) / after Forward has returned (incoming operations) the adapter is
+    released — in particular at the return of Forward whenever the stream existed — … -/
+theorem C02_product_released_when_closed (p : Params) (q : GB.WCtx.Params) (hf : q.fresh = true) (o : Op)
+    (s : GB.Prod.PState M E) (hr : GB.Prod.PReachable p q o s) (hc : closedFor o s.1 = true) :
+    s.2.released = true :=
+  (GB.Prod.pinv_reach p q hf o s hr).2.2.closed hc
+
+/-- …and every operation of the stream still pending then (the helpers of abandoned calls) is released: the product
+    has a run of at most 2·(outstanding helpers) helper steps, each an own step under the environment law, that leaves
+    Forward where it is and ends with no helper goroutine. (All schedules: `C02_withctx_release_all_schedules`.) -/
+theorem C02_product_drain_after_close (p : Params) (q : GB.WCtx.Params) (hf : q.fresh = true) (hcap : 1 ≤ q.cap)
+    (o : Op) (s : GB.Prod.PState M E) (hr : GB.Prod.PReachable p q o s) (hc : closedFor o s.1 = true) :
+    ∃ (ls : List GB.WCtx.Label) (s' : GB.Prod.PState M E),
+      GB.LTS.run (GB.Prod.pstep p q o) s (ls.map GB.Prod.PLabel.helper) = some s' ∧ s'.1 = s.1 ∧
+      s'.2.helpers = [] ∧ ls.length ≤ 2 * s.2.helpers.length := by
+  obtain ⟨_, hA, hY⟩ := GB.Prod.pinv_reach p q hf o s hr
+  obtain ⟨ls, a', h1, h2, h3, h4⟩ :=
+    GB.WCtx.drain q hf hcap (2 * s.2.helpers.length) s.2 hA (hY.closed hc) (GB.WCtx.hrank_le s.2)
+  exact ⟨ls, (s.1, a'), GB.Prod.lift_helper_run p q o s.1 ls s.2 a' h1 h4, rfl, h2, h3⟩
+
+/-- At the return of Forward: if the stream was created, every outgoing operation is released (instance of the two
+    theorems above with `C02_cleanup`: at return the stream is not left open). -/
+theorem C02_product_return_releases_outgoing (p : Params) (q : GB.WCtx.Params) (hf : q.fresh = true) (o : Op)
+    (ho : o.outgoing = true) (s : GB.Prod.PState M E) (hr : GB.Prod.PReachable p q o s) (hd : isDone s.1 = true)
+    (hex : s.1.out ≠ .none) : s.2.released = true := by
+  obtain ⟨hS, _, hY⟩ := GB.Prod.pinv_reach p q hf o s hr
+  apply hY.closed
+  have hno : s.1.out ≠ .opened := by
+    unfold isDone at hd
+    cases hm : s.1.main <;> simp [hm] at hd
+    exact hS.out_closed (by simp [hm])
+  simp only [closedFor, ho, if_true]
+  cases hout : s.1.out <;> simp_all
+
+/-- …for the three wrappers as they are in the repository (parameters from the regenerated facts): every call Forward
+    makes is accepted, a done context always releases a call in progress, and a closed stream / returned Forward leaves
+    only helpers that drain. -/
+theorem C02_product_repo (p : Params) (i : Nat) (hi : i < 3) (stop : Bool) (o : Op)
+    (s : GB.Prod.PState M E) (hr : GB.Prod.PReachable p (C02_withCtxParams i stop) o s) :
+    (∀ l f', step p s.1 l = some f' → callOf l = some o →
+        (GB.WCtx.step (C02_withCtxParams i stop) s.2 .call).isSome = true) ∧
+    (pend o s.1 = true → s.1.ctx.isSome = true →
+        (GB.WCtx.step (C02_withCtxParams i stop) s.2 .takeCtx).isSome = true) ∧
+    (closedFor o s.1 = true → s.2.released = true) := by
+  have hf : (C02_withCtxParams i stop).fresh = true := by
+    have : ∀ j, j < 3 → (C02_withCtxParams j stop).fresh = true := by cases stop <;> decide
+    exact this i hi
+  exact ⟨fun l f' hs hc => C02_product_call_never_refused p _ hf o s hr l f' hs hc,
+    fun hp hc => C02_product_ctx_return_enabled p _ hf o s hr hp hc,
+    fun hc => C02_product_released_when_closed p _ hf o s hr hc⟩
+
+/-- non-vacuity: a product run — bidi call, the request pump's outgoing.Send is abandoned through the ctx branch after
+    a cancellation (the AdaptedClientStream closes itself), its helper is still inside SendMsg when Forward's deferred
+    Close runs; afterwards the helper's primitive returns and it delivers into its own buffered channel and exits. -/
+example :
+    ((GB.LTS.run (GB.Prod.pstep (M := Nat) (E := Nat) { cs := true, ss := true, incAware := true, outAware := true }
+        (GB.WCtx.repo true true) .outSend) GB.Prod.pinit
+      [.fwd .outStreamCall false, .fwd (.outStreamRet .ok) false, .fwd .incRecvCall false, .fwd (.incRecvRet (.msg 1)) false,
+       .fwd (.outSendCall 1) false, .fwd (.ctxDone .canceled) false, .fwd (.outSendRet (.err 9)) true,
+       .fwd .tauSelCtx false, .fwd .outClose false, .helper (.primRet 0), .helper (.deliver 0)]).map
+      (fun s => (s.2.released, s.2.helpers, s.2.cancels, s.2.bufs))) = some (true, [], 1, [(0, 0)]) := by
+  decide
